@@ -252,11 +252,39 @@ func instrumentPkg(p listPkg, exports map[string]string, targets map[string]bool
 		if err := format.Node(&buf, fset, af); err != nil {
 			fatal("print %s: %v", p.GoFiles[i], err)
 		}
-		if err := os.WriteFile(filepath.Join(p.Dir, p.GoFiles[i]), buf.Bytes(), 0o644); err != nil {
+		outb := buf.Bytes()
+		// go/printer "repairs" build constraints: a file that only has `// +build go1.12` comes
+		// back with a `//go:build go1.12` line as well. That line is not harmless: since Go 1.21
+		// a //go:build version constraint sets the *language version of the file* (loop
+		// variable semantics, range-over-func, ...). The instrumented copy must be compiled
+		// under the version the original is, so a //go:build line the source did not have is
+		// taken out again.
+		if orig, err := os.ReadFile(filepath.Join(p.Dir, p.GoFiles[i])); err == nil && !hasGoBuildLine(orig) && hasGoBuildLine(outb) {
+			var kept [][]byte
+			for _, ln := range bytes.Split(outb, []byte("\n")) {
+				if !bytes.HasPrefix(ln, []byte("//go:build ")) {
+					kept = append(kept, ln)
+				}
+			}
+			outb = bytes.Join(kept, []byte("\n"))
+		}
+		if err := os.WriteFile(filepath.Join(p.Dir, p.GoFiles[i]), outb, 0o644); err != nil {
 			fatal("%v", err)
 		}
 	}
 	writeSitesFile(p, pkg, allSites)
+}
+
+func hasGoBuildLine(src []byte) bool {
+	for _, ln := range bytes.Split(src, []byte("\n")) {
+		if bytes.HasPrefix(ln, []byte("//go:build ")) {
+			return true
+		}
+		if bytes.HasPrefix(ln, []byte("package ")) {
+			break
+		}
+	}
+	return false
 }
 
 func stripDocs(af *ast.File) {
@@ -1119,6 +1147,26 @@ func (r *rw) special(c *ast.CallExpr) ast.Expr {
 				return r.call("WGAdd", r.recvAddr(f), r.expr(c.Args[0], ctxRead), r.site("wg", c.Pos()))
 			case "(*sync.Once).Do":
 				return r.call("OnceDo", r.recvAddr(f), r.expr(c.Args[0], ctxRead), r.site("once", c.Pos()))
+			}
+			switch {
+			case strings.HasPrefix(full, "(*sync.Map)."):
+				// every sync.Map method is an atomic read-modify-write of the map as far as the
+				// scheduler and the happens-before monitor are concerned
+				args := make([]ast.Expr, len(c.Args))
+				for i, a := range c.Args {
+					args[i] = r.expr(a, ctxRead)
+				}
+				return &ast.CallExpr{
+					Fun:      &ast.SelectorExpr{X: r.call("At", r.recvAddr(f), r.site("atomic", c.Pos()), ast.NewIdent("true")), Sel: f.Sel},
+					Args:     args,
+					Ellipsis: c.Ellipsis,
+				}
+			case full == "(*sync.Pool).Get":
+				return r.call("PoolGet", r.recvAddr(f), r.site("pool", c.Pos()))
+			case full == "(*sync.Pool).Put":
+				return r.call("PoolPut", r.recvAddr(f), r.expr(c.Args[0], ctxRead), r.site("pool", c.Pos()))
+			case full == "sync.OnceFunc" || full == "sync.OnceValue" || full == "sync.OnceValues":
+				return r.call(fn.Name(), r.expr(c.Args[0], ctxRead), r.site("once", c.Pos()))
 			}
 			if strings.HasPrefix(full, "(*sync.") {
 				r.warn(c.Pos(), "sync method %s is not modelled", full)
